@@ -25,7 +25,7 @@ from contracts import c_expr_unparse as CU
 from olvc import extract, ops, tmplcmp
 from olvc.evaluator import Machine
 from olvc.interp import Frame, IRaise, IStop, ifunc_of, HFn
-from olvc.oblig import paths_or_undecided
+from olvc.oblig import fail_or_gap, paths_or_undecided
 from olvc.runner import explore
 from olvc.sym import Opaque, Seg, SInt, Unsupported, ctx, tagstr, zint
 from olvc.tmpl import Fn, Hole, Join, Tmpl, as_tmpl
@@ -539,7 +539,7 @@ def g_trampoline(R, tier):
             c, v = p.ctx, p.value
             sig = c.signature()
             if p.kind != "ok":
-                R.fail(f"{base}/no-unexpected-raise/{sig}", repr(p.value))
+                fail_or_gap(R, f"{base}/no-unexpected-raise/{sig}", p)
                 continue
             sym.set_ctx(c)
             try:
